@@ -22,8 +22,8 @@ theorem toH5_written (c : Utf8) (dc : DateC δ) (t : Src α) (genBy : String) (d
     toH5 c dc t genBy date now csr csc = .ok (written c dc t genBy date now csr csc) := by
   have hsc := views_sameCount t csr csc hw hv
   unfold toH5
-  simp only [axGrp_ok c t.obs t.omd t.ogmd _ csr hmo rfl hv.csrWF.sameLen,
-    axGrp_ok c t.samp t.smd t.sgmd _ csc hms hsc (hv.cscWF.sameLen.trans hsc),
+  simp only [axGrp_ok c t.obs t.omd t.ogmd t.ogmdBare _ csr hmo rfl hv.csrWF.sameLen,
+    axGrp_ok c t.samp t.smd t.sgmd t.sgmdBare _ csc hms hsc (hv.cscWF.sameLen.trans hsc),
     bind, Except.bind, pure, Except.pure]
   rfl
 
@@ -37,6 +37,13 @@ theorem written_attrs (c : Utf8) (dc : DateC δ) (t : Src α) (genBy : String) (
     (csr csc : CS α) (hv : Views t csr csc) :
     attrsOK t (written c dc t genBy date now csr csc) = true := by
   simp [attrsOK, isStrAttr, written, attrTree, List.lookup, hv.csrMajor, hv.csrMinor, nnz_true t csr csc hv]
+
+/-- header values: generated-by = the argument, creation-date = the supplied date, id / type with
+their placeholders -/
+theorem written_headerOK (c : Utf8) (dc : DateC δ) (t : Src α) (genBy : String) (date : Option δ) (now : δ)
+    (csr csc : CS α) :
+    headerOK t genBy (date.map dc.iso) (written c dc t genBy date now csr csc) = true := by
+  cases date <;> simp [headerOK, written, attrTree, List.lookup]
 
 theorem written_groups (c : Utf8) (dc : DateC δ) (t : Src α) (genBy : String) (date : Option δ) (now : δ)
     (csr csc : CS α) :
@@ -102,11 +109,12 @@ theorem written_decode (c : Utf8) (hc : c.RT) (dc : DateC δ) (t : Src α) (genB
 theorem toH5_specWF (c : Utf8) (hc : c.RT) (dc : DateC δ) (t : Src α) (genBy : String) (date : Option δ)
     (now : δ) (csr csc : CS α) (hw : SrcWF t) (hv : Views t csr csc)
     (hmo : mdDomain t.omd = true) (hms : mdDomain t.smd = true) :
-    ∃ h, toH5 c dc t genBy date now csr csc = .ok h ∧ holds c t h = true := by
+    ∃ h, toH5 c dc t genBy date now csr csc = .ok h ∧ holds c t genBy (date.map dc.iso) h = true := by
   refine ⟨_, toH5_written c dc t genBy date now csr csc hw hv hmo hms, ?_⟩
   have hz := nnz_true t csr csc hv
   simp only [holds, clauses, List.all_cons, List.all_nil, Bool.and_true, Bool.and_eq_true]
-  refine ⟨written_attrs c dc t genBy date now csr csc hv, by simpa using written_groups c dc t genBy date now csr csc,
+  refine ⟨written_attrs c dc t genBy date now csr csc hv, written_headerOK c dc t genBy date now csr csc,
+    by simpa using written_groups c dc t genBy date now csr csc,
     written_ids c hc _ _ _ _, written_ids c hc _ _ _ _,
     mdOK_mdTree c hc t.obs t.omd hw.omdLen hmo _ rfl, mdOK_mdTree c hc t.samp t.smd hw.smdLen hms _ rfl,
     written_view c _ _ _ csr _ _ _ hv.csrWF hv.csrNZ hv.csrMajor hv.csrMinor hz,
@@ -152,7 +160,7 @@ def demoSrc : Src Int :=
     omd := some [[("taxonomy", .list ["k__A", "p__x"]), ("na/me", .text "é")],
                  [("na/me", .text "v"), ("taxonomy", .list ["k__B"])]],
     smd := some [[("depth", .int 3)], [("depth", .int (-1))], [("depth", .int 0)]],
-    ttype := some "OTU table", ogmd := [("tree", "newick", "(a,b);")] }
+    ttype := some "OTU table", ogmd := [("tree", "newick", "(a,b);")], sgmdBare := [("rel", "ab")] }
 def demoCsr : CS Int := { nMajor := 2, nMinor := 3, indptr := [0, 2, 3], indices := [2, 0, 2], data := [2, 1, -4] }
 def demoCsc : CS Int := { nMajor := 3, nMinor := 2, indptr := [0, 1, 1, 3], indices := [0, 0, 1], data := [1, 2, -4] }
 
@@ -161,12 +169,18 @@ example : mdDomain demoSrc.omd = true := by decide
 example : mdDomain demoSrc.smd = true := by decide
 example : demoCsr.wfb = true ∧ demoCsc.wfb = true := by decide
 example : demoCsr.toDense = demoSrc.rows ∧ demoCsc.toDense = transposeGrid 3 demoSrc.rows := by decide
-example : holds Utf8.ident demoSrc (written Utf8.ident DateC.ident demoSrc "g" (some "2020-01-02T03:04:05") "" demoCsr demoCsc) = true := by
+example : holds Utf8.ident demoSrc "g" (some "2020-01-02T03:04:05")
+    (written Utf8.ident DateC.ident demoSrc "g" (some "2020-01-02T03:04:05") "" demoCsr demoCsc) = true := by
   decide
 /-- and the predicate is not trivially true: the row view's indices in the sample group are refused -/
-example : holds Utf8.ident demoSrc
+example : holds Utf8.ident demoSrc "g" none
     { written Utf8.ident DateC.ident demoSrc "g" (some "d") "" demoCsr demoCsc with
       samp := some (axTree Utf8.ident demoSrc.samp demoSrc.smd [] { demoCsc with indices := [2, 0, 2] }) } = false := by
+  decide
+
+/-- and a file that keeps the table's own generated-by instead of the argument is refused -/
+example : holds Utf8.ident demoSrc "argument" none
+    (written Utf8.ident DateC.ident demoSrc "what the table carried" (some "d") "" demoCsr demoCsc) = false := by
   decide
 
 end Biom.C04
